@@ -205,8 +205,17 @@ func c14Run(in []string) []string {
 		}
 		return "0"
 	}
+	// the same Go object may be pushed several times ("R k"): the buffer wraps every push in its own
+	// copy; at most one copy per event id is alive in the buffer (a second one is refused as a
+	// duplicate), so Check/Process on an object concern its latest non-duplicate push; Released
+	// identifies the copy by the peer string
+	live := map[*gsev.Ev]int{}
+	prevLive := map[*gsev.Ev]int{}
 	cidOf := func(e dag.Event) int {
 		if ev, ok := e.(*gsev.Ev); ok {
+			if c, ok := live[ev]; ok {
+				return c
+			}
 			return ev.Cid
 		}
 		return -1
@@ -226,11 +235,20 @@ func c14Run(in []string) []string {
 		},
 		Released: func(e dag.Event, peer string, err error) {
 			code := c14ErrCode(err)
-			if peer != "peer"+strconv.Itoa(cidOf(e)) {
+			c := cidOf(e)
+			if err == eventcheck.ErrDuplicateEvent {
+				// the push being made right now was refused: the object's live copy is the older one
+				if ev, ok := e.(*gsev.Ev); ok {
+					if old, ok := prevLive[ev]; ok {
+						live[ev] = old
+					}
+				}
+			}
+			if peer != "peer"+strconv.Itoa(c) {
 				code = "8" // released with another copy's peer
 			}
 			vu.Stat("released_" + code)
-			log = append(log, fmt.Sprintf("R.%d.%d.%s", cidOf(e), gsev.Num(e.ID()), code))
+			log = append(log, fmt.Sprintf("R.%d.%d.%s", c, gsev.Num(e.ID()), code))
 		},
 		Get: func(id hash.Event) dag.Event {
 			if e, ok := connected[gsev.Num(id)]; ok {
@@ -272,11 +290,34 @@ func c14Run(in []string) []string {
 		cbs.Check = nil
 		vu.Stat("config_no_check")
 	}
+	switch {
+	case hist.limN == 0:
+		vu.Stat("limit_num_0")
+	case hist.limN == 1:
+		vu.Stat("limit_num_1")
+	case hist.limN == 4294967295:
+		vu.Stat("limit_num_maxuint32")
+	case hist.limN == 3000:
+		vu.Stat("limit_default")
+	}
+	switch {
+	case hist.limS == 0:
+		vu.Stat("limit_size_0")
+	case hist.limS == 1:
+		vu.Stat("limit_size_1")
+	case hist.limS == 18446744073709551615:
+		vu.Stat("limit_size_maxuint64")
+	}
 	buf := dagordering.New(dag.Metric{Num: idx.Event(hist.limN), Size: hist.limS}, cbs)
 	cid := 0
+	var objs []*gsev.Ev
+	afterClear, lastClear := false, false
 	for _, op := range hist.ops {
 		if len(op) == 0 {
 			panic("empty op")
+		}
+		if op[0] != "K" {
+			lastClear = false
 		}
 		switch op[0] {
 		case "P":
@@ -288,21 +329,57 @@ func c14Run(in []string) []string {
 				ps = append(ps, c14U(t))
 			}
 			e := gsev.New(cid, c14U(op[1]), ps, int(c14U(op[2])), 1)
+			objs = append(objs, e)
+			live[e] = cid
 			complete := buf.PushEvent(e, "peer"+strconv.Itoa(cid))
 			tot := buf.Total()
 			log = append(log, fmt.Sprintf("D.%d.%s.%d.%d", cid, b(complete), tot.Num, tot.Size))
 			cid++
 			vu.Stat("op_push")
+			if afterClear {
+				vu.Stat("push_after_clear")
+			}
+			if len(ps) > 3 {
+				vu.Stat("push_many_parents")
+			}
+			if c14U(op[2]) == 0 {
+				vu.Stat("push_size_0")
+			} else if c14U(op[2]) >= 1<<31 {
+				vu.Stat("push_size_huge")
+			}
+		case "R": // push the SAME object as the k-th push again
+			k := int(c14U(op[1]))
+			if k >= len(objs) {
+				panic("bad re-push")
+			}
+			e := objs[k]
+			objs = append(objs, e)
+			if c, ok := live[e]; ok {
+				prevLive[e] = c
+			}
+			live[e] = cid
+			complete := buf.PushEvent(e, "peer"+strconv.Itoa(cid))
+			tot := buf.Total()
+			log = append(log, fmt.Sprintf("D.%d.%s.%d.%d", cid, b(complete), tot.Num, tot.Size))
+			cid++
+			vu.Stat("op_push_same_object")
 		case "K":
 			buf.Clear()
 			tot := buf.Total()
 			log = append(log, fmt.Sprintf("K.%d.%d", tot.Num, tot.Size))
 			vu.Stat("op_clear")
+			if lastClear {
+				vu.Stat("clear_twice")
+			}
+			afterClear, lastClear = true, true
 		case "X":
 			id := c14U(op[1])
 			connected[id] = gsev.New(-1, id, nil, 1, 1)
 			log = append(log, fmt.Sprintf("X.%d", id))
 			vu.Stat("op_connect")
+			if id >= 100 {
+				vu.Stat("connect_never_pushed_id")
+			}
 		case "O":
 		default:
 			panic("bad op")
@@ -716,7 +793,11 @@ func c14Random(r *rand.Rand, emit func(...string)) {
 			ops = append(ops, "K")
 		}
 		if r.Float64() < conP {
-			ops = append(ops, "X "+vu.U64(uint64(1+r.Intn(k))))
+			if r.Intn(4) == 0 {
+				ops = append(ops, "X "+vu.U64(uint64(100+r.Intn(3))))
+			} else {
+				ops = append(ops, "X "+vu.U64(uint64(1+r.Intn(k))))
+			}
 		}
 	}
 	if r.Intn(3) != 0 {
@@ -742,6 +823,82 @@ func c14Random(r *rand.Rand, emit func(...string)) {
 		fp = c14RandTable(r, k, 0.15)
 	}
 	c14Emit(emit, limN, limS, fc, fp, ops)
+}
+
+// configuration / size sweep: one representative of every limit value (0, 1, exact fit, one below,
+// MaxUint32 / MaxUint64, the default 3000 / 10 MiB), event sizes 0 and huge, events connected for ids
+// never pushed, the same object pushed again, Clear twice, pushes after Clear, many parents, and a
+// long children-first chain (recursion depth = chain length)
+func c14Sweep(tier string, emit func(...string)) {
+	const maxN, maxS = uint64(4294967295), uint64(18446744073709551615)
+	// diamond 1 <- 2,3 <- 4 and a tail 5 <- 4, sizes 1..5, pushed children first
+	dag5 := []c14Node{{5, []uint64{4}, 5}, {4, []uint64{2, 3}, 4}, {3, []uint64{1}, 3}, {2, []uint64{1}, 2}, {1, nil, 1}}
+	push := func(ns []c14Node) []string {
+		var o []string
+		for _, n := range ns {
+			o = append(o, c14PushTok(n))
+		}
+		return o
+	}
+	base := push(dag5)
+	lims := [][2]uint64{{0, maxS}, {maxN, 0}, {1, 1}, {1, maxS}, {maxN, 1}, {4, 14}, {3, maxS}, {maxN, 13}, {5, 15},
+		{maxN, maxS}, {3000, 10 * 1024 * 1024}}
+	for _, l := range lims {
+		for _, fl := range []string{"", "O r", "O c", "O rc"} {
+			ops := append(append([]string{}, base...), "K")
+			if fl != "" {
+				ops = append(ops, fl)
+			}
+			c14Emit(emit, l[0], l[1], nil, nil, ops)
+			c14Emit(emit, l[0], l[1], nil, [][2]uint64{{4, 1}}, ops)
+		}
+	}
+	// sizes 0 and huge
+	zero := []c14Node{{3, []uint64{2}, 0}, {2, []uint64{1}, 0}, {1, nil, 0}}
+	for _, l := range [][2]uint64{{maxN, 0}, {0, 0}, {1, 0}, {maxN, maxS}} {
+		c14Emit(emit, l[0], l[1], nil, nil, append(push(zero), "K"))
+	}
+	huge := []c14Node{{4, []uint64{3}, 1 << 31}, {3, []uint64{2}, 1 << 40}, {2, []uint64{1}, 1 << 62}, {1, nil, (1 << 31) - 1}}
+	for _, l := range [][2]uint64{{maxN, maxS}, {maxN, 1 << 62}, {maxN, 1<<62 + 1<<40}, {2, maxS}, {maxN, 1<<31 - 1}} {
+		c14Emit(emit, l[0], l[1], nil, nil, append(push(huge), "K"))
+		c14Emit(emit, l[0], l[1], nil, nil, append(push(huge[:3]), "K")) // the root never arrives
+	}
+	// Exists/Get answer for ids that were never pushed
+	ghost := []c14Node{{3, []uint64{2, 101}, 3}, {2, []uint64{100}, 2}}
+	c14Emit(emit, maxN, maxS, nil, nil, append(append(push(ghost), "X 100", c14PushTok(c14Node{6, []uint64{2}, 1}), "X 101", c14PushTok(c14Node{7, []uint64{3, 100}, 1})), "K"))
+	c14Emit(emit, maxN, maxS, nil, nil, append([]string{"X 100", "X 101"}, append(push(ghost), "K")...))
+	c14Emit(emit, maxN, maxS, nil, nil, []string{c14PushTok(ghost[1]), "X 2", c14PushTok(ghost[1]), c14PushTok(c14Node{8, []uint64{2}, 1}), "K"}) // buffered, then connected from outside
+	// the same object pushed again: while buffered (duplicate), after processing, after a failure, after a spill, after Clear
+	c14Emit(emit, maxN, maxS, nil, nil, []string{c14PushTok(dag5[3]), "R 0", c14PushTok(dag5[4]), "R 0", "R 2", "K"})
+	c14Emit(emit, maxN, maxS, nil, [][2]uint64{{2, 1}}, []string{c14PushTok(dag5[3]), c14PushTok(dag5[4]), "R 0", "R 0", "K"})
+	c14Emit(emit, 1, maxS, nil, nil, []string{c14PushTok(dag5[3]), c14PushTok(dag5[2]), "R 0", "K", "R 0", "R 1", "K", "K"})
+	// Clear twice, pushes after Clear, Clear on an empty buffer
+	c14Emit(emit, maxN, maxS, nil, nil, append(append([]string{"K", "K"}, base...), "K", "K"))
+	c14Emit(emit, maxN, maxS, nil, nil, append(append(append([]string{}, base[:3]...), "K"), append(base, "K", "K")...))
+	c14Emit(emit, 2, maxS, nil, nil, append(append(append([]string{}, base[:4]...), "K"), append(base, "K")...))
+	// many parents
+	wide := []c14Node{{9, []uint64{1, 2, 3, 4, 5, 6, 7, 8}, 9}}
+	for i := 8; i >= 1; i-- {
+		wide = append(wide, c14Node{uint64(i), nil, i})
+	}
+	c14Emit(emit, maxN, maxS, nil, nil, append(push(wide), "K"))
+	c14Emit(emit, maxN, maxS, nil, [][2]uint64{{5, 0}}, append(push(wide), "K"))
+	// long chain, children first: the whole chain is processed by one recursion
+	n := 300
+	if tier == "thorough" {
+		n = 1000
+	}
+	var chain []c14Node
+	for i := n; i >= 1; i-- {
+		var ps []uint64
+		if i > 1 {
+			ps = []uint64{uint64(i - 1)}
+		}
+		chain = append(chain, c14Node{uint64(i), ps, 1 + i%7})
+	}
+	vu.Stat("sweep_long_chain")
+	c14Emit(emit, 3000, 10*1024*1024, nil, nil, append(push(chain), "K"))
+	c14Emit(emit, uint64(n/2), maxS, nil, [][2]uint64{{uint64(n / 3), 0}}, append(push(chain), "K"))
 }
 
 // completeness stream: distinct events of a parents-closed DAG in a random (mostly children-first)
@@ -795,6 +952,7 @@ func init() {
 			if tier == "thorough" {
 				c14Exhaustive(4, emit)
 			}
+			c14Sweep(tier, emit)
 			for i := 0; i < n; i++ {
 				switch {
 				case i%5 == 3:
